@@ -405,7 +405,11 @@ class Sharer:
     def __init__(self):
         self.defs, self.memo = [], {}
 
+    SHARE = False   # measured: coqc elaborates the plain nested literal faster than let-bound sharing
+
     def ref(self, key, ty, mk):
+        if not self.SHARE:
+            return mk()
         if key not in self.memo:
             term = mk()
             nm = "x%d" % len(self.defs)
@@ -622,7 +626,8 @@ def evaluate(ck, progs, optss, origin, ref_every=4):
         except ValueError as e:
             if len(ck.violations) < 5:
                 ck.violation(dict(rep0, kind="Go produced a value outside the modelled fragment: %s" % e))
-    verdicts = ck.run_coq("C15", "judge", terms, shard=max(4, len(terms) // 16 + 1))
+    # few shards: a coqc process costs ~8 s before the first case is judged, the cases are cheap
+    verdicts = ck.run_coq("C15", "judge", terms, shard=max(20, len(terms) // (5 if ck.quick else 16) + 1))
     ck.log("model side done: %d programs judged, %d reference-explainer runs" % (len(terms), st["ref_runs"]))
     return outs, go_cases, where, verdicts, st
 
